@@ -214,7 +214,7 @@ def run(ctx):
     with open(os.path.join(ctx.work, "c29_groups.jsonl"), "w") as f:
         for g in groups:
             f.write(json.dumps(g) + "\n")
-    rc, out = ctx.go_test("actor", "^TestVerifC29", ["zz_verif_C29_test.go"], timeout=1200)
+    rc, out = ctx.go_test("actor", "^TestVerifC29", ["zz_verif_C29_test.go"], env={"CGO_ENABLED": "0"}, timeout=1200)
     recs = read_jsonl(outp)
     want = sum(32 * 6 + 3 * 6 + 6 + 6 for _ in groups)
     if rc != 0 or len(recs) < want:
